@@ -19,6 +19,21 @@ from .source import Repo, FunctionInfo
 from .spec import Registry, Contract
 
 
+_FORK_VC = None
+_FORK_ARGS = None
+
+
+def _explore_prefix(prefix):
+    fi, c = _FORK_ARGS
+    return _FORK_VC.explore_one(prefix, fi, c)
+
+
+def _solve_index(i):
+    t0 = time.time()
+    v, b, m = _FORK_VC.solve(_FORK_VC.obligations[i])
+    return v, b, m, (time.time() - t0) * 1000
+
+
 def _has_quant(e):
     seen = set()
     stack = [e]
@@ -91,6 +106,7 @@ class FunctionResult:
             'source_sha': self.source_hash, 'lines': self.span, 'file': self.file, 'wall_s': round(self.wall_s, 3),
             'obligations': self.obligations, 'trivially_true_instances': self.trivial,
             'return_paths': self.return_paths, 'cover_return_reachable': self.cover_ok,
+            'explore_s': getattr(self, 'explore_s', None),
         }
 
 
@@ -152,6 +168,9 @@ class VC(Executor, ExprMixin, StmtMixin, CallMixin):
         self.ghost_hits = set()
         npaths = 0
         return_pcs = []
+        workers = int(os.environ.get('PYVC_INNER_WORKERS', '1'))
+        if workers > 1 and not getattr(self, 'no_parallel', False):
+            return self.verify_parallel(res, fi, c, workers, t0)
         try:
             while self.pending:
                 prefix = self.pending.pop()
@@ -183,6 +202,7 @@ class VC(Executor, ExprMixin, StmtMixin, CallMixin):
         res.paths = npaths
         res.trivial = self.trivial
         res.return_paths = len(return_pcs)
+        res.explore_s = round(time.time() - t0, 2)
         self.discharge(res)
         # vacuity: some normal-exit path must be reachable under the precondition
         res.cover_ok = False
@@ -197,6 +217,121 @@ class VC(Executor, ExprMixin, StmtMixin, CallMixin):
                 break
             if r == z3.unknown:
                 res.cover_ok = 'not-refuted'   # path condition not shown contradictory (quantifiers)
+        res.wall_s = time.time() - t0
+        return res
+
+    # ------------------------------------------------------------------------------------------- parallel exploration
+    def explore_one(self, prefix, fi, c):
+        """Worker side: explore the path selected by `prefix`, discharge its obligations, report new alternatives."""
+        self.obligations = []
+        self.touched = set()
+        self.trivial = 0
+        self.pending = []
+        self.ghost_hits = set()
+        return_pcs = []
+        out = {'unsupported': None, 'rows': [], 'pending': [], 'touched': [], 'trivial': 0, 'ret': None, 'ghost_hits': []}
+        try:
+            self.reset_path(prefix)
+            self.call_stack = [fi.qualname]
+            self.opaque_attrs = {}
+            try:
+                self.run_target(fi, c, return_pcs)
+            except PathEnd:
+                pass
+        except Unsupported as e:
+            out['unsupported'] = f"{e} (line {self.cur_line})"
+            return out
+        except RecursionError:
+            out['unsupported'] = 'recursion limit in executor'
+            return out
+        for ob in self.obligations:
+            t0 = time.time()
+            v, b, m = self.solve(ob)
+            out['rows'].append((ob.name, ob.kind, ob.line, ob.info, v, b, m, (time.time() - t0) * 1000))
+        out['pending'] = self.pending
+        out['touched'] = sorted(self.touched)
+        out['trivial'] = self.trivial
+        out['ghost_hits'] = sorted(self.ghost_hits)
+        for pc in return_pcs:
+            s = z3.Solver()
+            s.set('timeout', 3000)
+            for p in pc:
+                s.add(p)
+            r = s.check()
+            out['ret'] = True if r == z3.sat else ('not-refuted' if r == z3.unknown else False)
+        return out
+
+    def verify_parallel(self, res, fi, c, workers, t0):
+        import multiprocessing as mp
+        global _FORK_VC, _FORK_ARGS
+        _FORK_VC, _FORK_ARGS = self, (fi, c)
+        agg, order = {}, []
+        touched, ghost_hits = set(), set()
+        npaths = 0
+        cover = False
+        nret = 0
+        trivial = 0
+        unsupported = None
+        with mp.get_context('fork').Pool(workers) as pool:
+            inflight = [pool.apply_async(_explore_prefix, ([],))]
+            while inflight:
+                job = inflight.pop(0)
+                out = job.get()
+                npaths += 1
+                if out['unsupported'] and unsupported is None:
+                    unsupported = out['unsupported']
+                if npaths + len(inflight) > self.MAX_PATHS:
+                    unsupported = unsupported or f"more than {self.MAX_PATHS} paths"
+                if unsupported is None:
+                    for pfx in out['pending']:
+                        inflight.append(pool.apply_async(_explore_prefix, (pfx,)))
+                touched |= set(out['touched'])
+                ghost_hits |= set(out['ghost_hits'])
+                trivial += out['trivial']
+                if out['ret'] is not None:
+                    nret += 1
+                    if out['ret'] is True:
+                        cover = True
+                    elif out['ret'] == 'not-refuted' and cover is False:
+                        cover = 'not-refuted'
+                for (name, kind, line, info, v, b, m, ms) in out['rows']:
+                    a = agg.get(name)
+                    if a is None:
+                        a = {'name': name, 'kind': kind, 'line': line, 'info': info, 'instances': 0, 'verdict': 'discharged',
+                             'ms': 0.0, 'backends': [], 'model': None}
+                        agg[name] = a
+                        order.append(name)
+                    a['instances'] += 1
+                    a['ms'] = round(a['ms'] + ms, 2)
+                    if b not in a['backends']:
+                        a['backends'].append(b)
+                    if v == 'refuted':
+                        if a['verdict'] != 'refuted':
+                            a['model'], a['line'], a['info'] = m, line, info
+                        a['verdict'] = 'refuted'
+                    elif v == 'undecided' and a['verdict'] == 'discharged':
+                        a['verdict'] = 'undecided'
+        res.paths = npaths
+        if unsupported is not None:
+            res.status = 'out_of_reach'
+            res.reason = unsupported
+            res.wall_s = time.time() - t0
+            return res
+        missing_anchor = [t for t in list(c.ghost_after) + list(c.ghost_before) if t not in ghost_hits]
+        if missing_anchor:
+            res.status = 'unbound'
+            res.reason = f"ghost anchor statement(s) not found in the body: {missing_anchor}"
+            return res
+        for name in sorted(touched):
+            if name not in agg:
+                agg[name] = {'name': name, 'kind': name.split('#')[1].split('[')[0], 'line': 0, 'info': '', 'instances': 0,
+                             'verdict': 'discharged', 'ms': 0.0, 'backends': ['simplifier'], 'model': None}
+                order.append(name)
+        res.obligations = [agg[n] for n in order]
+        res.trivial = trivial
+        res.return_paths = nret
+        res.cover_ok = cover
+        res.explore_s = None
         res.wall_s = time.time() - t0
         return res
 
@@ -388,15 +523,32 @@ class VC(Executor, ExprMixin, StmtMixin, CallMixin):
         agg = {}
         order = []
         refuted_names = set()
-        for ob in self.obligations:
+        workers = int(os.environ.get('PYVC_INNER_WORKERS', '1'))
+        presolved = {}
+        if workers > 1 and len(self.obligations) > 6:
+            # obligations are independent: discharge them in forked workers (the z3 terms are inherited by fork)
+            import multiprocessing as mp
+            global _FORK_VC
+            _FORK_VC = self
+            try:
+                with mp.get_context('fork').Pool(workers) as pool:
+                    for i, r in enumerate(pool.map(_solve_index, range(len(self.obligations)), chunksize=1)):
+                        presolved[i] = r
+            except Exception:
+                presolved = {}
+        for i, ob in enumerate(self.obligations):
             t0 = time.time()
             if ob.name in refuted_names:
                 agg[ob.name]['instances'] += 1
                 continue
-            verdict, backend, model = self.solve(ob)
+            if i in presolved:
+                verdict, backend, model, ms = presolved[i]
+            else:
+                verdict, backend, model = self.solve(ob)
+                ms = (time.time() - t0) * 1000
             if verdict == 'refuted':
                 refuted_names.add(ob.name)
-            ob.ms = (time.time() - t0) * 1000
+            ob.ms = ms
             ob.verdict, ob.backend, ob.model = verdict, backend, model
             a = agg.get(ob.name)
             if a is None:
@@ -438,6 +590,17 @@ class VC(Executor, ExprMixin, StmtMixin, CallMixin):
         # relevance-ranked subsets of the quantified hypotheses (sound: dropping hypotheses), smallest first
         quants = [p for p in ob.pc if _has_quant(p)]
         if len(quants) > 25:
+            # quick attempt with everything: most obligations discharge at once
+            s2 = z3.Solver()
+            s2.set('timeout', min(2500, self.budget_ms))
+            for p in ob.pc:
+                s2.add(p)
+            s2.add(z3.Not(ob.goal))
+            r2 = s2.check()
+            if r2 == z3.unsat:
+                return 'discharged', 'z3-5.1.0', None
+            if r2 == z3.sat:
+                return 'refuted', 'z3-5.1.0', self.model_summary(s2.model())
             ranked = self.rank_hypotheses(ob.goal, ob.pc, quants)
             for nsel in (15, 40, 100, 250):
                 if nsel >= len(quants):
